@@ -66,6 +66,75 @@ def packed_canonical_operand(F, ck, rid='R14.5'):
               'for two non-canonical lanes whose sum / difference wraps twice the lane differs from the scalar result by 2^32 - 1' % (fname, ai, prim), loc)
 
 
+# wrapping operations whose wrap-around is the intended result (function, method): one line of reason each
+INTENDED_WRAP = {
+    ('from_noncanonical_i64', 'wrapping_add'): "ORDER + (n as u64) for n < 0: both operands have the high bit set, the wrap-around IS the reduction (two's complement)",
+}
+KERNEL_FILES = {'R14.6': ('plonky2_field', ('goldilocks_field.rs', 'goldilocks_extensions.rs')),
+                'R13.9': ('plonky2', ('hash/poseidon.rs', 'hash/poseidon_goldilocks.rs'))}
+
+
+def lost_carry(F, ck, rid, floor_over):
+    """No silently discarded carry in the multi-limb kernels: every integer wrapping_add / wrapping_sub / wrapping_mul is
+    discharged by the interval analysis (the operands cannot overflow the type) or listed as an intended wrap; every
+    overflowing_add / overflowing_sub / overflowing_mul binds its overflow flag to a named local that the function reads."""
+    crate, files = KERNEL_FILES[rid]
+    ck.rule(rid, 'no silently lost carry in the %s kernels: each integer wrapping_* is shown non-overflowing by interval analysis (or is a listed intended wrap) and each overflowing_* has its flag bound to a local that is read' % '/'.join(files))
+    nover = nwrap = 0
+    for fn in sorted(F.fns.values(), key=lambda f: f.d):
+        if fn.crate != crate or fn.body is None or not fn.file.endswith(files):
+            continue
+        body_nodes = list(walk(fn.body))
+        wraps = [n for n in body_nodes if n.get('k') == 'MCall' and n['n'] in ('wrapping_add', 'wrapping_sub', 'wrapping_mul') and uint.tymax(fn.ty(n['r'])) is not None]
+        overs = [n for n in body_nodes if n.get('k') == 'MCall' and n['n'] in ('overflowing_add', 'overflowing_sub', 'overflowing_mul')]
+        if wraps:
+            an = uint.Analysis(F, fn, consts=CONSTS)
+            # operand intervals are re-evaluated in the final environment: sound for the straight-line kernels (single assignment), and
+            # an operand the analysis cannot bound falls back to its type range
+            for i, n in enumerate(wraps):
+                nwrap += 1
+                key = 'wrap:%s:%s#%d' % (fn.qual, n['n'], i)
+                if (fn.name, n['n']) in INTENDED_WRAP:
+                    ck.ob(rid, key, True, 'intended wrap: ' + INTENDED_WRAP[(fn.name, n['n'])], n.get('s'))
+                    continue
+                m = uint.tymax(fn.ty(n['r']))
+                a = an.ev(n['r'])
+                b = an.ev(n['a'][0]) if n.get('a') else None
+                a = a if isinstance(a, tuple) else (0, m)
+                b = b if isinstance(b, tuple) else (0, m)
+                if n['n'] == 'wrapping_add':
+                    ok = a[1] + b[1] <= m
+                elif n['n'] == 'wrapping_mul':
+                    ok = a[1] * b[1] <= m
+                else:
+                    ok = a[0] >= b[1]
+                ck.ob(rid, key, ok, 'operands in [%#x..%#x] and [%#x..%#x]: cannot leave the type range' % (a[0], a[1], b[0], b[1]) if ok else
+                      'CARRY DISCARDED: %s applies %s to operands that can reach %#x and %#x: the result can leave the %s range and the wrap-around is thrown away, so for those operands the '
+                      'multi-limb value (and the residue reduced from it) is off by 2^%d' % (fn.qual, n['n'], a[1], b[1], fn.ty(n['r']), (m + 1).bit_length() - 1), n.get('s'))
+        if overs:
+            # the Let that destructures each overflowing_* call
+            lets = {id(s_['i']): s_ for s_ in body_nodes if s_.get('k') == 'Let' and 'i' in s_}
+            reads = {}
+            for x in body_nodes:
+                if x.get('k') == 'Local':
+                    reads[x['id']] = reads.get(x['id'], 0) + 1
+            for i, n in enumerate(overs):
+                nover += 1
+                key = 'flag:%s:%s#%d' % (fn.qual, n['n'], i)
+                st = lets.get(id(n))
+                ok, why = False, 'the result tuple is not destructured by a let'
+                if st is not None and st['p'].get('k') == 'PTuple' and len(st['p']['a']) == 2:
+                    q = st['p']['a'][1]
+                    if q.get('k') == 'Bind':
+                        ok = reads.get(q['id'], 0) > 0
+                        why = 'overflow flag `%s` is read' % q.get('n', '?') if ok else 'overflow flag `%s` is never read' % q.get('n', '?')
+                    else:
+                        why = 'overflow flag is discarded by the pattern'
+                ck.ob(rid, key, ok, why if ok else 'CARRY DISCARDED: %s: %s of %s - a carry / borrow out of this limb is lost' % (fn.qual, why, n['n']), n.get('s'))
+    ck.floor(rid, 'overflowing_* sites in the kernels', nover, floor_over)
+    return nwrap, nover
+
+
 def run(F, ck, tier):
     E = ob.Engine(F, ck)
     ck.rule('R14.2', 'unchecked preconditions are discharged at every call site (interval analysis) / constant arguments are canonical')
@@ -187,6 +256,7 @@ def run(F, ck, tier):
                   '%s compares the raw representation `.0` of a field element (%s): a non-canonical representative of the same value (e.g. ORDER for zero) takes the other branch' % (fn.qual, n['op']), n.get('s'))
     ck.floor('R14.4', 'raw-representation comparisons seen (hints and constant assertions)', nraw, 5)
     packed_canonical_operand(F, ck)
+    lost_carry(F, ck, 'R14.6', 8)
     ck.decided += ['add_no_canonicalize_trashing_input precondition holds at its call sites', 'canonical constants at add/sub_canonical_u64 call sites', 'inverse_2exp threshold']
     ck.undecided += ['that any operator returns the correct residue (numeric)', 'the reduce160 magnitude bound at its 11 call sites (needs a 160-bit relational domain; not built)', 'extension-field axioms, Frobenius, batch inversion', 'packed AVX2/AVX-512 lanes', 'the assume() hints in Add/Sub']
     return 'Decides only three narrow structural clauses of C14 (interval discharge of one unchecked precondition, canonical constants, one threshold constant). The property proper - exactness on all operands - is numeric and is not decided.'
